@@ -15,7 +15,8 @@ DEF_OPS = {"cal", "ucal", "defname", "named", "reset", "dual", "dual2", "num", "
 class Prop:
     def __init__(self, rule, classify, mode="exact", modes=None, gen=True, regenerate=None,
                  exhaustive=None, trusted=None, assumptions=None, rtol=1e-9, atol_rel=1e-12,
-                 finding_key=None, oracle=None, oracle_finish=None, def_ops=None):
+                 finding_key=None, oracle=None, oracle_finish=None, def_ops=None, allow_badop=False):
+        self.allow_badop = allow_badop
         self.rule = rule
         self._classify = classify
         self.mode = mode
@@ -94,7 +95,7 @@ def _cls_c06(t, impl):
     if op == "named":
         return "named:" + impl, True
     if op in ("isbus", "issettle", "iswd", "ishol"):
-        return op + "=" + impl, True
+        return op + "=" + impl, impl != "bad-op"
     if op == "caleq":
         return "caleq=" + impl, True
     return None, False
@@ -111,7 +112,7 @@ class C06Oracle:
     def __call__(self, t, impl):
         if t[0] in ("isbus", "issettle", "iswd", "ishol") and impl in ("0", "1"):
             h = int(t[1])
-            if h >= 1000:
+            if 1000 <= h < 1000000:
                 if self.last and self.last[0] == t[0] and self.last[2] == t[2] and self.last[1] + 1 == h:
                     if self.last[3] != impl:
                         r = "named calendar answers %s but the explicit union of its parts answers %s" % (self.last[3], impl)
@@ -158,4 +159,4 @@ PROPS["C06"] = Prop(
     classify=_cls_c06, exhaustive=lambda tier: False, trusted=_dates_trusted + [
         "Rust's Unicode to_lowercase is modelled as ASCII lower-casing",
         "the built-in tables reach the model through `defname` lines dumped from the running code"],
-    assumptions=_dates_assume, oracle=C06Oracle())
+    assumptions=_dates_assume, oracle=C06Oracle(), allow_badop=True)
